@@ -21,7 +21,7 @@ RULE = ("(a) every fault site (C12 matrix + list/tuple/number given to String an
         "lists nested to 6; (c) CSV faults: empty file, header only, ragged rows, non-numeric cells, missing column, duplicate "
         "headers, quoted newlines, NUL bytes, non-UTF-8 bytes, 1 MB field, nan/inf/1e400 cells; (d) open() raising at the n-th call; "
         "(e) mismatched shapes / weights / empty lists; distinct by (class, fault/edit kind, command, outcome class)")
-REQUIRED_COUNTERS = ["api_rings_built", "boundary_outcomes_recorded", "mpilot_errors_seen", "cli_runs_checked", "error_messages_rendered", "io_faults_injected", "csv_faults_run", "text_corruptions_run", "cli_subprocess_runs", "netcdf_faults_run", "api_built_fault_models", "api_object_reference_models", "near_type_values_given"]
+REQUIRED_COUNTERS = ["edited_programs_rerun", "api_rings_built", "boundary_outcomes_recorded", "mpilot_errors_seen", "cli_runs_checked", "error_messages_rendered", "io_faults_injected", "csv_faults_run", "text_corruptions_run", "cli_subprocess_runs", "netcdf_faults_run", "api_built_fault_models", "api_object_reference_models", "near_type_values_given"]
 ASSUMPTIONS = ["SyntaxError vs MPilotError for malformed text: either is allowed", "command files that are not valid UTF-8, KeyboardInterrupt and MemoryError are out of scope",
                "the CLI's behaviour for SyntaxError is not specified by the property and not judged"]
 
@@ -35,7 +35,11 @@ EXTRA_WRONG = {
     "result": [NESTED, NESTED2],
     "datatype": [NESTED],
     "tuple": [NESTED, NESTED2],
-    "list:number": [("nonfinite-item", faults.LIST([faults.INT(1), faults.WORD("nan")]), [1, "nan"]), ("inf-item", faults.LIST([faults.WORD("inf")]), ["inf"])],
+    "list:number": [("long-list-bad-item", faults.LIST([faults.INT(k_) for k_ in range(70)] + [faults.WORD("abc")]), list(range(70)) + ["abc"]),
+                    ("long-list-huge-item", faults.LIST([faults.INT(k_) for k_ in range(70)] + [faults.INT(10 ** 400)]), list(range(70)) + [10 ** 400]),
+                    ("long-list-tuple-item", faults.LIST([faults.INT(k_) for k_ in range(66)] + [faults.TUPLE("a", faults.INT(1))]), list(range(66)) + [{"a": 1}]),
+                    ("long-list-none-item", faults.LIST([faults.FLOAT(0.5)] * 64 + [faults.WORD("None")]), [0.5] * 64 + [None]),
+                    ("nonfinite-item", faults.LIST([faults.INT(1), faults.WORD("nan")]), [1, "nan"]), ("inf-item", faults.LIST([faults.WORD("inf")]), ["inf"])],
     "string": [NESTED, NESTED2, ("list", faults.LIST([faults.INT(1), faults.WORD("a")]), [1, "a"]), ("tuple", faults.TUPLE("a", faults.WORD("b")), {"a": "b"}), ("number", faults.INT(7), 7)],
     "path": [NESTED, NESTED2, ("through-a-file", faults.QSTR("in.csv/a"), "in.csv/a"), ("file-with-a-slash", faults.QSTR("in.csv/"), "in.csv/"), ("through-a-file-deep", faults.QSTR("in.csv/x/y.csv"), "in.csv/x/y.csv"),
              ("missing-folder-with-braces", faults.QSTR("run{1}/result.csv"), "run{1}/result.csv"), ("missing-folder-with-empty-braces", faults.QSTR("out{}/r{x}.csv"), "out{}/r{x}.csv"),
@@ -136,6 +140,8 @@ def cases(ctx):
         yield {"kind": "apinear", "variant": i * ctx.nshards + ctx.shard, "rseed": rng.randrange(10 ** 9)}
     for i in range(ctx.n(30, 1500)):
         yield {"kind": "apicycle", "variant": i % 3, "rseed": rng.randrange(10 ** 9)}
+    for i in range(ctx.n(40, 2000)):
+        yield {"kind": "editrun", "variant": i % 4, "rseed": rng.randrange(10 ** 9), "model": models.gen_model(rng, n_ops=rng.randint(1, 5), sinks=True)}
     # (e) run-time faults through API and CLI
     for i in range(ctx.n(300, 15000)):
         yield {"kind": "runtime", "fault": rng.choice(["shape", "shape", "weights", "empty", "k-too-big", "bad-direction", "bad-truest", "dup-raw", "len-mismatch", "equal-thresholds"]),
@@ -390,6 +396,56 @@ def run_apicycle(ctx, case):
     _classify(ctx, b, "api-ring:%s" % ["pure", "closing-a-forward-reference", "some-with-line-numbers"][case["variant"]], {"ring": names})
 
 
+def run_editrun(ctx, case):
+    """A program is run, a command is removed the documented way (del program.commands[name]) or put back, and the program is
+    run again - possibly after a first run that failed: whatever happens is a syntax error, an MPilot error, or success."""
+    from mpilot.program import Program
+    rng = random.Random(case["rseed"])
+    model = case["model"]
+    d = ctx.scratch()
+    models.write_table(model["table"], d)
+    text, _ = models.to_text(model)
+    ctx.count("edited_programs_rerun")
+    leaves = [c["result"] for c in model["commands"] if not any(c["result"] in models.deps_of(o) for o in model["commands"])]
+    inner = [c["result"] for c in model["commands"] if c["result"] not in leaves]
+    ctx.feature(("editrun", case["variant"], len(model["commands"])))
+    b = _Outcome()
+    try:
+        b.stage = "load"
+        prog = Program.from_source(text, working_dir=d)
+        if case["variant"] == 1:
+            os.remove(os.path.join(d, model["table"]["file"]))      # the first run fails: the input is not there
+        b.stage = "first-run"
+        try:
+            prog.run()
+        except Exception as e:
+            from mpilot.exceptions import MPilotError
+            if not isinstance(e, MPilotError):
+                raise
+        b.stage = "edit"
+        victim = rng.choice(leaves if case["variant"] != 2 or not inner else inner)
+        removed = prog.commands[victim]
+        del prog.commands[victim]
+        if case["variant"] == 1:
+            models.write_table(model["table"], d)
+        b.stage = "second-run"
+        try:
+            prog.run()
+        except Exception as e:
+            from mpilot.exceptions import MPilotError
+            if not isinstance(e, MPilotError):
+                raise
+        if case["variant"] == 3:
+            b.stage = "re-add"
+            prog.add_command(type(removed), victim, {a.name: a.value for a in removed.arguments})
+            b.stage = "third-run"
+            prog.run()
+        b.stage = "done"
+    except Exception as e:
+        b.exc = e
+    _classify(ctx, b, "edited-program:%s" % ["leaf-removed", "leaf-removed-after-a-failed-run", "inner-command-removed", "leaf-removed-and-put-back"][case["variant"]], {"text": text[:600]})
+
+
 def run_apiobj(ctx, case):
     import copy
     import numpy
@@ -437,7 +493,7 @@ def run_apiobj(ctx, case):
 
 def run_case(ctx, case):
     k = case["kind"]
-    return {"fault": run_fault, "text": run_text, "csv": run_csv, "io": run_io, "runtime": run_runtime, "nc": run_nc, "apiobj": run_apiobj, "apinear": run_apinear, "apicycle": run_apicycle}[k](ctx, case)
+    return {"fault": run_fault, "text": run_text, "csv": run_csv, "io": run_io, "runtime": run_runtime, "nc": run_nc, "apiobj": run_apiobj, "apinear": run_apinear, "apicycle": run_apicycle, "editrun": run_editrun}[k](ctx, case)
 
 
 def run_fault(ctx, case):
